@@ -237,7 +237,7 @@ type switchRouterEnvelope struct {
 	baseRouterEnvelope
 
 	Operand             string             `json:"operand"               validate:"required"`
-	Cases               []*Case            `json:"cases"`
+	Cases               []*Case            `json:"cases"                 validate:"dive,required"`
 	DefaultCategoryUUID flows.CategoryUUID `json:"default_category_uuid" validate:"omitempty,uuid4"`
 }
 
